@@ -112,6 +112,34 @@ var engCases = []engCase{
 	{"pure-method-keeps", prelude + "func (s *S) get() int { return s.B }\n" + `func f(x *S) { if x.A != 1 { return }; _ = x.get(); mark() }`, "f", `x.A == 1`, true},
 	{"predicate-inline", prelude + "func (s *S) ok() bool { return s.A == 1 && s.Name == \"\" }\n" + `func f(x *S) { if !x.ok() { return }; mark() }`, "f", `x.A == 1 && x.Name == ""`, true},
 	{"range-value-alias", prelude + `func f(xs []S) { for i, n := range xs { if n.P == nil { xs[i].P = &S{} }; mark() } }`, "f", `xs[i].P != nil`, true},
+	// copy transfer: eq atoms over the target equal their twins over the source
+	{"copy-string", prelude + `func f(x, y *S) { if y.Name == "" { return }; x.Name = y.Name; mark() }`, "f", `x.Name != ""`, true},
+	{"copy-string-neg", prelude + `func f(x, y *S) { x.Name = y.Name; mark() }`, "f", `x.Name != ""`, false},
+	{"copy-pointer", prelude + `func f(x, y *S) { if y.P == nil { return }; x.P = y.P; mark() }`, "f", `x.P != nil`, true},
+	// boolean assignment: the variable holds what the expression evaluated to
+	{"bool-assign", prelude + `func f(x *S) { ok := false; ok = x.A == 1 && x.Name == ""; if !ok { return }; mark() }`, "f", `x.A == 1 && x.Name == ""`, true},
+	{"bool-assign-branches", prelude + `func f(x *S) { var r bool; if x.P == nil { r = false } else { r = x.P.A == 2 }; if !r { return }; mark() }`, "f", `x.P != nil`, true},
+	{"bool-assign-neg", prelude + `func f(x *S) { ok := false; ok = x.A == 1 || x.On; if !ok { return }; mark() }`, "f", `x.A == 1`, false},
+	// result flag after an expanded helper: err's nil-ness witnesses the branch taken
+	{"result-flag", prelude + `type E struct{}
+func (E) Error() string { return "" }
+func f(m map[string]int, k string) { var err error; { _, dup := m[k]; if dup { err = E{} } else { err = nil } }; if err != nil { return }; _, again := m[k]; _ = again; mark() }`, "f", `err == nil`, true},
+	// predicates: named sub-conditions, and an opaque rest for what cannot be inlined
+	{"predicate-subcond", prelude + `func bad(s *S, need, on bool) bool { hot := s.A == 7; if need { return !hot }; return on && hot }
+func f(x *S, need, on bool) { if bad(x, need, on) { return }; mark() }`, "f", `!need || x.A == 7`, true},
+	{"predicate-rest", prelude + `func want(s *S, xs []int) bool { if s.Name == "" { return true }; if !s.On { return false }; for _, v := range xs { if v == 3 { return true } }; return false }
+func f(x *S, xs []int) { if !want(x, xs) { return }; mark() }`, "f", `x.Name == "" || x.On`, true},
+	{"predicate-rest-neg", prelude + `func want(s *S, xs []int) bool { if s.Name == "" { return true }; for _, v := range xs { if v == 3 { return true } }; return false }
+func f(x *S, xs []int) { if !want(x, xs) { return }; mark() }`, "f", `x.Name == "" || x.On`, false},
+	// call-result postcondition from the callee's return statements
+	{"call-post", prelude + `func find(xs []*S, name string) *S { for _, v := range xs { if v.Name == name { return v } }; return nil }
+func f(xs []*S, name string) { if o := find(xs, name); o != nil { mark(); _ = o } }`, "f", `o.Name == name`, true},
+	{"call-post-neg", prelude + `func find(xs []*S, name string) *S { for _, v := range xs { if v.A == 1 { return v } }; return nil }
+func f(xs []*S, name string) { if o := find(xs, name); o != nil { mark(); _ = o } }`, "f", `o.Name == name`, false},
+	{"call-post-mutated", prelude + `func find(xs []*S, name string) *S { for _, v := range xs { if v.Name == name { v.Name = "x"; return v } }; return nil }
+func f(xs []*S, name string) { if o := find(xs, name); o != nil { mark(); _ = o } }`, "f", `o.Name == name`, false},
+	// the defining statement of an alias does not forget the aliased path
+	{"alias-def-keeps", prelude + `func f(x *S) { if x.P == nil { x.P = &S{} }; q := x.P; q.A = 1; mark() }`, "f", `x.P != nil`, true},
 }
 
 const poolOK = prelude + `type Cfg struct{ MaxPool, MinPool, MinENI, MaxENI int; CRD bool }
